@@ -26,6 +26,21 @@ def ForAll(vs, body, patterns=None, **kw):
             except z3.Z3Exception: pass
     return _ForAll(vs, body, **kw)
 
+_QC = {}
+def _has_quant(e):
+    k = e.get_id()
+    if k in _QC: return _QC[k]
+    r = False
+    stack = [e]; seen = set()
+    while stack:
+        x = stack.pop()
+        if x.get_id() in seen: continue
+        seen.add(x.get_id())
+        if z3.is_quantifier(x): r = True; break
+        stack.extend(x.children())
+    _QC[k] = r
+    return r
+
 _BAD_KINDS = None
 def _valid_pattern(p, vs):
     global _BAD_KINDS
@@ -216,9 +231,10 @@ class Repo:
 
 
 class Obligation:
-    __slots__ = ('name', 'assumptions', 'goal', 'prefix', 'kind', 'extra')
-    def __init__(self, name, assumptions, goal, prefix, kind='vc', extra=None):
+    __slots__ = ('name', 'assumptions', 'goal', 'prefix', 'kind', 'extra', 'axgroups')
+    def __init__(self, name, assumptions, goal, prefix, kind='vc', extra=None, axgroups=None):
         self.name, self.assumptions, self.goal, self.prefix, self.kind, self.extra = name, assumptions, goal, prefix, kind, extra
+        self.axgroups = axgroups      # background axioms by group ('ring' laws are only sent when the lighter attempts fail)
 
 
 class LoopContract:
@@ -277,6 +293,7 @@ class Interp:
         self.loop_ord_cache = {}
         self.call_stack = []
         self.paths_done = 0
+        self.axgroups = {}
 
     # ----- path-level helpers
     def fresh(self, name, sort):
@@ -329,7 +346,7 @@ class Interp:
         if key in self.obls: return
         goal = tz(goal)
         assumptions = list(self.st.pc) + list(self.st.guards)
-        self.obls[key] = Obligation(name, assumptions, goal, self.st.taken(), kind, extra)
+        self.obls[key] = Obligation(name, assumptions, goal, self.st.taken(), kind, extra, {g: list(v) for g, v in self.axgroups.items()} if self.axgroups else None)
     def choose(self, n, label=''):
         st = self.st
         if st.pos < len(st.prefix):
@@ -343,12 +360,21 @@ class Interp:
     def feasible(self, extra=None):
         key = self.st.taken()
         if key in self.feas_cache: return self.feas_cache[key]
+        # stage 1: quantifier-free part only (fast, complete for linear arithmetic); stage 2: everything, under a resource limit
+        # (timeouts are not honoured inside E-matching loops).  `unknown` counts as feasible: pruning is only an optimisation.
+        qf = [f for f in self.st.pc if not _has_quant(f)]
         s = z3.Solver(); s.set('timeout', int(os.environ.get('PYVC_FEAS_MS', '400')))
-        s.add(*self.st.pc)
+        s.add(*qf)
         if extra is not None: s.add(extra)
-        r = s.check() != z3.unsat
-        self.feas_cache[key] = r
-        return r
+        r = s.check()
+        if r != z3.unsat and len(qf) < len(self.st.pc):
+            s2 = z3.Solver(); s2.set('timeout', int(os.environ.get('PYVC_FEAS_MS', '400'))); s2.set('rlimit', 400000)
+            s2.add(*self.st.pc)
+            if extra is not None: s2.add(extra)
+            r = s2.check()
+        res = r != z3.unsat
+        self.feas_cache[key] = res
+        return res
     def branch(self, cond, label=''):
         """decide a (possibly symbolic) condition; forks"""
         cond = self.truth(cond)
@@ -375,6 +401,9 @@ class Interp:
             raise Unsupported("truth value of an array")
         return True
     def event(self, *e): self.st.events.append(e)
+    def use_axioms(self, group, formulas):
+        """background axioms (not path conditions): sent with every obligation emitted from now on, by group"""
+        self.axgroups[group] = list(formulas)
 
     # ----- name resolution
     def resolve_global(self, modname, name):
@@ -441,6 +470,11 @@ class Interp:
             if nm == 'tuple': return isinstance(v, tuple)
             if nm == 'ndarray': return isinstance(v, ArrRef) and not self.A(v).islist
             if nm == 'Callable' or nm == 'callable': return isinstance(v, (Func, Bound)) or callable(v)
+        if isinstance(cls, ExtClass):
+            # an external class: only external stub objects of that kind are instances
+            if hasattr(v, '_pyvc_attrs'): return v._pyvc_attrs.get('kind') == cls.name
+            if v is None or isinstance(v, (str, int, float, bool, tuple, list, dict, ArrRef)) or is_sym(v): return False
+            if isinstance(v, ObjRef): return False
         raise Unsupported(f"isinstance({v}, {cls})")
 
     # ----- expressions
@@ -663,6 +697,12 @@ class Interp:
             raise Unsupported("float modulo")
         if op is ast.Pow:
             bb = conc(b)
+            sb = z3.simplify(b)
+            if z3.is_rational_value(sb) and sb.denominator_as_long() == 1 and 0 <= sb.numerator_as_long() <= 4: bb = sb.numerator_as_long()
+            if bb == 2 and z3.is_app(a) and a.decl().name() == 'sqrt' and a.num_args() == 1:
+                x_ = a.arg(0)
+                if z3.is_app(x_) and x_.decl().name() == 'fro2': return x_      # squared Frobenius norms are non-negative by definition
+                return If(x_ >= 0, x_, a * a)       # sqrt(x)^2 = x for x >= 0 (definition of the square root)
             if isinstance(bb, int) and 0 <= bb <= 4:
                 r = IntVal(1) if a.sort() == z3.IntSort() else RealVal(1)
                 for _ in range(bb): r = r * a
@@ -730,7 +770,9 @@ class Interp:
         if isinstance(f, Func): return self.call_func(f, list(args), kw, node)
         if isinstance(f, ClassV): return self.instantiate(f, args, kw, node)
         if isinstance(f, type) and issubclass(f, BaseException): return ('exc', f.__name__)
-        if isinstance(f, ExtClass): return ('exc', f.name)
+        if isinstance(f, ExtClass):
+            if hasattr(f, 'ctor'): return f.ctor(self, *args, **kw)
+            return ('exc', f.name)
         if callable(f):
             self.curnode = node
             return f(self, *args, **kw)
@@ -1204,6 +1246,7 @@ class Interp:
             self.st = State(prefix)
             self.call_stack = []
             self.last_ghost = {}
+            self.axgroups = {}
             try:
                 r = body_fn(self)
                 results.append(('ok', self.st, r))
